@@ -324,7 +324,7 @@ VerbList = ['load', 'house', 'init',
 Comparisons = ['==', '<', '<=', '>=', '>', '!=']
 Connectives = ['to',  'by', 'with', 'from', 'per', 'for', 'cum', 'qua', 'via',
                'as', 'at', 'in', 'of', 'on', 're', 'is',
-               'if', 'be', 'into', 'and', 'not', '+-', ]
+               'if', 'be', 'into', 'and', 'not', '+-', 'rx', 'tx', ]
 Reserved = Connectives + Comparisons  #concatenate to get reserved words
 ReservedFrameNames = ['next', 'prev']  # frame names with special meaning as target of goto
 
